@@ -132,6 +132,9 @@ type runOutcome struct {
 	vacuous   []string
 }
 
+// usesEntryConditions: rules outside engine E1 that select their call sites by the option flags under which they are reached.
+var usesEntryConditions = map[string]bool{"CL2": true, "CL3": true, "CL6": true, "FX3": true, "ST4": true, "ST5": true, "ST8": true}
+
 func evaluate(prop *propertySpec, ctxs []*Ctx, known *knownFile) *runOutcome {
 	out := &runOutcome{}
 	seenKey := map[string]bool{}
@@ -140,6 +143,17 @@ func evaluate(prop *propertySpec, ctxs []*Ctx, known *knownFile) *runOutcome {
 			r := rf(c)
 			if r == nil {
 				continue
+			}
+			// Rules that reason with entry conditions (engine E1: which option flags guard the way to a call site) cannot relate a
+			// flag to an action when the action is picked from a table of function values: what they would report as a violation
+			// is then only "cannot tell".
+			if tc := c.tableCalls(); len(tc) > 0 && (strings.Contains(r.Engine, "E1") || usesEntryConditions[r.ID]) {
+				for i := range r.Instances {
+					if r.Instances[i].Verdict == vViolation {
+						r.Instances[i].Verdict = vUndecided
+						r.Instances[i].Detail = "entry conditions cannot be derived, " + tc[0] + " dispatches through a table of function values; without that: " + r.Instances[i].Detail
+					}
+				}
 			}
 			if len(ctxs) > 1 {
 				r.Analysed = append([]string{"GOOS=" + c.GOOS}, r.Analysed...)
